@@ -214,6 +214,12 @@ def run_os(case, ctx):
                 except Blocked:
                     out.viol('pool_operation_blocked', s_, '')
                     return
+                except (KeyboardInterrupt, SystemExit):
+                    raise
+                except Exception as e:
+                    # add_worker / run / restart_workers on a healthy pool have no business raising anything but PoolError (handled above)
+                    out.viol('pool_operation_raised:' + type(e).__name__, s_.split(':')[0], f'{s_}: {e!r}'[:300])
+                    return
                 log.append(s_)
         all_workers = []
         t0 = time.monotonic()
@@ -250,6 +256,8 @@ def run_os(case, ctx):
                 bounded(pool.close if case['exit'] == 'close' else pool.terminate, 90)
         except Blocked:
             out.viol('pool_exit_blocked', site, 'leaving the pool did not return within the guard')
+        except Exception as e:
+            out.viol('pool_exit_raised:' + type(e).__name__, site, f'{e!r}'[:300])
         el = time.monotonic() - t0
         out.nontrivial = nonthread > 0
         exempt = (stuck or lingering) and case['force'] is False
